@@ -475,10 +475,10 @@ impl Check for TreeProp {
         if index < fixtures * per {
             return self.enumerated(seed, index, tier);
         }
-        if index % 30 == 11 {
+        if index % 15 == 11 {
             // lattice angles (see checks::so2_lattice): exact half turns between tree nodes
-            let kinds: &[PlannerKind] = if self.id == "C17" { &[PlannerKind::RRTStar] } else { &[PlannerKind::RRTStar, PlannerKind::RRTStar, PlannerKind::RRTConnect, PlannerKind::RRT] };
-            let mut scn = if (index / 30) % 2 == 0 { crate::checks::so2_lattice(self.id, seed, index, kinds) } else { crate::checks::se2_lattice(self.id, seed, index, kinds) };
+            let kinds: &[PlannerKind] = if self.id == "C17" { &[PlannerKind::RRTStar] } else { &[PlannerKind::RRTStar, PlannerKind::RRTStar, PlannerKind::RRTStar, PlannerKind::RRTConnect, PlannerKind::RRT] };
+            let mut scn = if (index / 15) % 3 == 0 { crate::checks::so2_lattice(self.id, seed, index, kinds) } else { crate::checks::se2_lattice(self.id, seed, index, kinds) };
             let n = scn.sampling.script.len() as f64;
             scn.params.insert("depth".into(), n);
             scn.params.insert("obstacle_free".into(), 0.0);
